@@ -22,6 +22,7 @@ type c07hCase struct {
 	Delay, Limit     int64
 	Retries          int
 	RDelay           int64
+	LsnDur           int64 // the retry policy's OnFailure listener takes this long
 	ScriptP, ScriptH []FnStepD
 }
 
@@ -37,6 +38,9 @@ func runC07Hedged(t *testing.T, c c07hCase) (lit string, js map[string]any, hedg
 		rb := retrypolicy.Builder[int]().WithMaxRetries(c.Retries)
 		if c.RDelay > 0 {
 			rb = rb.WithDelay(time.Duration(c.RDelay))
+		}
+		if c.LsnDur > 0 {
+			rb = rb.OnFailure(func(failsafe.ExecutionEvent[int]) { time.Sleep(time.Duration(c.LsnDur)) })
 		}
 		to := timeout.Builder[int](time.Duration(c.Limit)).OnTimeoutExceeded(func(e failsafe.ExecutionDoneEvent[int]) {
 			// (the event does not say which branch it belongs to: a firing is the hedged branch's when that branch entered the
@@ -86,7 +90,7 @@ func runC07Hedged(t *testing.T, c c07hCase) (lit string, js map[string]any, hedg
 			}
 			return gList(xs)
 		}
-		rc := fmt.Sprintf("{| r_fpol := build_fpolicy []; r_abort := build_abort []; r_max_retries := %d; r_max_duration := 0; r_return_last := false; r_delay := %d; r_lsn_dur := 0 |}", c.Retries, c.RDelay)
+		rc := fmt.Sprintf("{| r_fpol := build_fpolicy []; r_abort := build_abort []; r_max_retries := %d; r_max_duration := 0; r_return_last := false; r_delay := %d; r_lsn_dur := %d |}", c.Retries, c.RDelay, c.LsnDur)
 		lit = fmt.Sprintf("%d %d %s %d\n  %s\n  %s\n  %s %d %s %s %s %s", base, c.Delay, rc, c.Limit, ss(c.ScriptP), ss(c.ScriptH), gOutcome(r, err), end,
 			gList(startsP), gList(startsH), gList(firedP), gList(firedH))
 		js = map[string]any{"hedge_delay": c.Delay, "time_limit": c.Limit, "max_retries": c.Retries, "retry_delay": c.RDelay, "primary_script": ss(c.ScriptP), "hedged_script": ss(c.ScriptH),
@@ -118,7 +122,19 @@ func genC07hCase(rng *Rng) c07hCase {
 		c.ScriptP = append(c.ScriptP, step(i))
 		c.ScriptH = append(c.ScriptH, step(i+4))
 	}
-	if rng.Chance(20) && c.Retries > 0 {
+	if rng.Chance(25) {
+		c.LsnDur = int64(1+rng.Intn(4))*1024 + 77
+	}
+	if rng.Chance(15) && c.Retries > 0 {
+		// both branches fail while the OTHER one's failure listener is still running: one budget, booked per failure
+		c.LsnDur = 4096 + 77
+		c.RDelay = 0
+		c.Delay = 1024 + 100
+		for i := range c.ScriptP {
+			c.ScriptP[i] = FnStepD{Out: OutD{Err: &ErrD{K: "Sent", A: 0}}, Dur: int64(100 + 3*i)}
+			c.ScriptH[i] = FnStepD{Out: OutD{Err: &ErrD{K: "Sent", A: 1}}, Dur: int64(200 + 5*i)}
+		}
+	} else if rng.Chance(20) && c.Retries > 0 {
 		// both branches fail fast while the other one waits out its retry delay: they draw on one budget
 		c.RDelay = c.Delay + 4096 + 11
 		for i := range c.ScriptP {
